@@ -427,3 +427,15 @@ Section EventsToObj.
     | _ => None
     end.
 End EventsToObj.
+
+(** ---- [events_to_objs]: the events of a decoded stream, split at the message roots, each message turned into an
+    object - a command, then the response built with that command's code, ... (the last command may lack its response) *)
+Definition role_root (ro : role) : root :=
+  match ro with RoleCommand => RCommand | RoleResponse cc => RResponse cc false end.
+Fixpoint zip_objs (T : tables) (ms : list (list event)) (rs : list role) : list (option value) :=
+  match ms, rs with
+  | m :: ms', r :: rs' => events_to_obj T (role_root r) m :: zip_objs T ms' rs'
+  | _, _ => []
+  end.
+Definition events_to_objs (T : tables) (evs : list event) : list (option value) :=
+  let ms := separate_events evs in zip_objs T ms (roles ms None).
